@@ -395,20 +395,22 @@ def explore(run, focus, n_random):
 
 
 def run_handler_armed(spec, chooser, max_steps=2500):
-    """spec: {"arms": [(period, times, deferred, lifo)], "client_timed": [...], "pauses": n, "own_stop": bool}
-    The chart's ARM handler arms the next timed source of spec["arms"]; the control thread posts the ARM events,
-    then calls stop() (or posts STOPME, whose handler calls stop() from inside the object)."""
+    """spec: {"arms": [(period, times, deferred, lifo, name)], "client_timed": [...], "pauses": n, "own_stop": bool}
+    The chart's ARM handler arms the next timed source of spec["arms"] (signal T<name>); the control thread posts the ARM
+    events, then calls stop() (or posts STOPME, whose handler calls stop() from inside the object)."""
     res = {"errors": []}
     saved_pp = mao.pp
     mao.pp = lambda x: None
     with dsched.Installed():
         def stop_when(s):
             k = [t for t in s.threads if t.name == "K0"]
+            if spec["own_stop"] and not all(t.finished for t in s.threads if t.name == "C"):
+                return False        # the object stops itself: run until its thread has ended (or nothing can run / the bound)
             return bool(k) and k[0].finished and s.now >= HORIZON
         sched = dsched.Sched(chooser, max_steps=max_steps, yield_filter=yield_filter)
         dsched.Sched.current = sched
         try:
-            arms = list(spec["arms"])
+            arms = [tuple(a) for a in spec["arms"]]
             armed = []
             steps = []
 
@@ -417,10 +419,11 @@ def run_handler_armed(spec, chooser, max_steps=2500):
                 if sn == "ARM":
                     steps.append(("ARM", len(sched.trace)))
                     if arms:
-                        period, times, deferred, lifo = arms.pop(0)
+                        period, times, deferred, lifo, name = arms.pop(0)
                         try:
                             f = chart.post_lifo if lifo else chart.post_fifo
-                            armed.append(f(Event(signal="E0", payload=600000 + len(armed)), period=period, times=times, deferred=bool(deferred)))
+                            armed.append(f(Event(signal="T%d" % name, payload=600000 + len(armed)), period=period, times=times,
+                                           deferred=bool(deferred)))
                         except mao.ActiveObjectOutOfPostedEventResources:
                             pass
                     return return_status.HANDLED
@@ -429,8 +432,8 @@ def run_handler_armed(spec, chooser, max_steps=2500):
                     chart.stop()
                     res["own_stop_returned_at"] = len(sched.trace)
                     return return_status.HANDLED
-                if sn == "E0":
-                    steps.append(("E0", len(sched.trace)))
+                if sn[0] == "T" and sn[1:].isdigit():
+                    steps.append((sn, len(sched.trace)))
                     return return_status.HANDLED
                 if e.signal in (signals.ENTRY_SIGNAL, signals.INIT_SIGNAL, signals.EXIT_SIGNAL):
                     return return_status.HANDLED
@@ -446,7 +449,7 @@ def run_handler_armed(spec, chooser, max_steps=2500):
             def client():
                 for period, times, deferred, lifo in spec["client_timed"]:
                     sched.yield_point("call.timed")
-                    (ao.post_lifo if lifo else ao.post_fifo)(Event(signal="E0", payload=500000), period=period, times=times,
+                    (ao.post_lifo if lifo else ao.post_fifo)(Event(signal="T99", payload=500000), period=period, times=times,
                                                                deferred=bool(deferred))
                 for _ in range(len(spec["arms"])):
                     sched.yield_point("call.post")
@@ -470,8 +473,13 @@ def run_handler_armed(spec, chooser, max_steps=2500):
                 if t.error is not None:
                     res["errors"].append("%s: %s: %s" % (t.name, type(t.error).__name__, t.error))
             timers = sorted([t for t in sched.threads if t.name.startswith("timer")], key=lambda t: int(t.name[5:]))
-            res["timers"] = [{"name": t.name, "flag": int(t.args[0].task_run_event._flag), "finished": t.finished} for t in timers]
+            tracked_ids = set(str(pe.uuid) for pe in ao.posted_events_queue)
+            res["timers"] = [{"name": t.name, "flag": int(t.args[0].task_run_event._flag), "finished": t.finished,
+                              "signal": t.args[0].event.signal_name,
+                              "tracked": int(k < len(armed) and str(armed[k]) in tracked_ids)} for k, t in enumerate(timers)]
             res["tracked"] = len(ao.posted_events_queue)
+            res["run_flag"] = int(ao.activeobject_task_event._flag)
+            res["queue"] = [e.signal_name for e in ao.locking_deque.deque.raw()]
         finally:
             leaked = sched.shutdown()
             mao.pp = saved_pp
@@ -480,16 +488,64 @@ def run_handler_armed(spec, chooser, max_steps=2500):
     return res
 
 
+def armed_model_steps(spec, res):
+    """the recorded schedule as macro steps of the Lean model `Conc.AOArm` (0 = k, 1 = c, 2+i = timer i), by linearisation
+    point: K posts at its dq.append, clears + appends STOP at call.stop, joins, takes one source lock per cancel; the consumer
+    tests the flag at run.is_set and takes its step at dq.popleft (or at the peek that sees STOP); timer i posts at its dq.append"""
+    out = []
+    nposts = 0
+    cstate = "check"
+    last_k = None
+    trace = res["trace"]
+    for idx, e in enumerate(trace):
+        name, label = e[0], e[1]
+        if name == "K0":
+            if label == "dq.append" and nposts < len(spec["arms"]):
+                nposts += 1
+                out.append(0)
+            elif label == "call.stop":
+                out += [0, 0]               # post 0 -> stopClear; stopClear -> stopAppend (the flag is cleared before the next primitive)
+            elif label == "dq.append":
+                out.append(0)               # stopAppend -> join (STOP is in the queue)
+            elif label in ("thread.join", "DLock.acquire"):
+                out.append(0)
+                last_k = len(out)
+        elif name == "C":
+            if label == "run.is_set":
+                if cstate == "check":
+                    out.append(1)
+                    cstate = "wait" if e[2] else "fin"
+            elif label == "dq.len" and cstate == "wait" and e[2] == 0:
+                out.append(1000)            # woken by a surplus token with nothing queued: back to the loop test
+                cstate = "check"
+            elif label == "dq.popleft" or (label == "dq.peek" and getattr(e[2], "signal_name", "") == "STOP_ACTIVE_OBJECT_SIGNAL"):
+                out.append(1)
+                cstate = "check"
+        elif name.startswith("timer") and label in ("dq.append", "dq.appendleft"):
+            out.append(2 + int(name[5:]))
+    if res.get("stop_returned_at") is not None and last_k is not None:
+        out.insert(last_k, 0)               # cancel [] -> done: stop() returns in the same scheduling step as its last primitive
+    return out
+
+
 def explore_handler_armed(run, n):
-    """oracle-only stream for C12 (the Lean model's handlers do not arm timed sources): sources armed by a
-    run-to-completion step that is in progress / still queued when stop() is called"""
+    """C12 stream: sources armed by a run-to-completion step that is in progress / still queued when stop() is called.
+    Tied runs (fifo sources with distinct names, stop() from another thread) are replayed on the Lean model `Conc.AOArm`
+    (family `aoarm`); the others (lifo sources, shared names, a client-armed source, stop() from a handler) are checked by
+    the implementation-side oracle only"""
     rng = run.rng
+    tied_done = []
     for _ in range(n):
-        spec = {"arms": [(rng.randint(1, 3), rng.choice([0, 0, 2, 3]), int(rng.random() < 0.7), int(rng.random() < 0.3))
-                         for _ in range(rng.randint(1, 3))],
-                "client_timed": [(rng.randint(1, 3), rng.choice([0, 2]), 1, 0)] if rng.random() < 0.4 else [],
-                "pauses": rng.choice([0, 0, 1, 2, 4]),
-                "own_stop": rng.random() < 0.25}
+        tied = rng.random() < 0.6
+        narms = rng.randint(1, 3)
+        if tied:
+            spec = {"arms": [(rng.randint(1, 3), rng.choice([0, 0, 1, 2, 3]), int(rng.random() < 0.7), 0, k) for k in range(narms)],
+                    "client_timed": [], "pauses": rng.choice([0, 0, 1, 2, 4]), "own_stop": False, "tied": True}
+        else:
+            spec = {"arms": [(rng.randint(1, 3), rng.choice([0, 0, 2, 3]), int(rng.random() < 0.7), int(rng.random() < 0.3), rng.randrange(2))
+                             for _ in range(narms)],
+                    "client_timed": [(rng.randint(1, 3), rng.choice([0, 2]), 1, 0)] if rng.random() < 0.4 else [],
+                    "pauses": rng.choice([0, 0, 1, 2, 4]), "own_stop": rng.random() < 0.3, "tied": False}
         seed = rng.randrange(1 << 30)
         r2 = random.Random(seed)
         if r2.random() < 0.5:
@@ -499,7 +555,7 @@ def explore_handler_armed(run, n):
         res = run_handler_armed(spec, base)
         trace = res["trace"]
         cj = {"what": "handler-armed", "spec": spec, "chooser": kind, "seed": seed, "schedule": [e[0] for e in trace]}
-        run.count("handler-armed stream: stop() from %s" % ("a handler" if spec["own_stop"] else "another thread"))
+        run.count("handler-armed stream: stop() from %s%s" % ("a handler" if spec["own_stop"] else "another thread", ", tied to the model" if tied else ""))
         if res["errors"]:
             run.violate("C12/thread-error", "a thread died: %s" % res["errors"][:2], cj)
         if not spec["own_stop"]:
@@ -523,20 +579,231 @@ def explore_handler_armed(run, n):
                             "(%d still tracked)" % (live, res["tracked"]), cj)
             if any(i < done for nm, i in res["steps"] if nm == "ARM") and res["timers"]:
                 run.count("handler-armed stream: a source was armed by a step before stop() returned")
+            if tied:
+                tied_done.append((spec, res, cj))
         else:
             # stop() from a handler: the thread ends after the current step
             at = res.get("own_stop_returned_at")
             if at is not None:
-                if res["outcome"] != "bound" and not res["finished"].get("C"):
+                if res["outcome"] == "quiescent" and not res["finished"].get("C"):
                     run.violate("C12/thread-not-ended", "stop() was called from a handler but the object's thread never ended", cj)
                 later = [nm for nm, i in res["steps"] if i > at]
                 if later:
                     run.violate("C12/step-after-own-stop", "steps %s ran after the step whose handler called stop()" % later, cj)
         run.case(cj, nontrivial=True)
+    lines = []
+    for spec, res, cj in tied_done:
+        st = armed_model_steps(spec, res)
+        toks = ["aoarm", 9, 500, len(spec["arms"])]
+        for a in spec["arms"]:
+            toks += [a[1], a[4]]
+        toks += [len(spec["arms"]), len(st)] + st
+        lines.append(" ".join(str(t) for t in toks))
+    outs = leanrun.run_driver(lines) if lines else []
+    for (spec, res, cj), out in zip(tied_done, outs):
+        run.traces_validated += 1
+        done = res["stop_returned_at"]
+        trace = res["trace"]
+        srcs = []
+        for k, t in enumerate(res["timers"]):
+            posts = [i for i, e in enumerate(trace) if e[0] == t["name"] and e[1] in ("dq.append", "dq.appendleft")]
+            srcs.append("%d%d:%s:%d:%d" % (t["flag"], t["tracked"], t["signal"][1:], len(posts), sum(1 for i in posts if i >= done)))
+        q = ",".join("a" if x == "ARM" else "s" if x == "STOP_ACTIVE_OBJECT_SIGNAL" else "t" + str([t["signal"] for t in res["timers"]].index(x))
+                     for x in res["queue"])
+        real = "c=%s k=done run=%d q=%s srcs=%s stopReturned=1 stepsAfterStop=%d blocked=0" % (
+            "fin" if res["finished"].get("C") else "alive", res["run_flag"], q, ";".join(srcs), sum(1 for _, i in res["steps"] if i >= done))
+        if out.strip() != real:
+            run.disagree("stop() racing handlers that arm timed sources (lock granularity)", cj, "model: %s\nreal:  %s" % (out.strip(), real), None)
+
+
+def _basic_chart(log, on_entry=None):
+    def s1(chart, e):
+        sn = e.signal_name
+        if sn[0] in "ET" and sn[1:].isdigit():
+            log.append((sn, e.payload))
+            return return_status.HANDLED
+        if e.signal == signals.ENTRY_SIGNAL:
+            if on_entry is not None:
+                on_entry(chart)
+            return return_status.HANDLED
+        if e.signal in (signals.INIT_SIGNAL, signals.EXIT_SIGNAL):
+            return return_status.HANDLED
+        chart.temp.fun = chart.top
+        return return_status.SUPER
+    return s1
+
+
+def run_fabric_stop(spec, chooser, max_steps=3000):
+    """posts to an active object before and after ActiveFabric().stop() returned"""
+    res = {"errors": [], "log": []}
+    saved_pp = mao.pp
+    mao.pp = lambda x: None
+    with dsched.Installed():
+        sched = dsched.Sched(chooser, max_steps=max_steps, yield_filter=yield_filter)
+        dsched.Sched.current = sched
+        try:
+            ao = mao.ActiveObject(name="C")
+            sched.name_obj(ao.locking_deque.deque, "dq")
+            sched.name_obj(ao.locking_deque.locking_queue, "tok")
+            sched.name_obj(ao.activeobject_task_event, "run")
+            ao.start_at(_basic_chart(res["log"]))
+            sched.name_obj(ao.fabric_task_event, "fab")
+
+            def client():
+                for i in range(spec["before"]):
+                    sched.yield_point("call.post")
+                    ao.post_fifo(Event(signal="E0", payload=i))
+                for _ in range(spec["pauses"]):
+                    sched.yield_point("call.pause")
+                sched.yield_point("call.fabstop")
+                ao.fabric.stop()
+                res["stop_at"] = len(sched.trace)
+                for j in range(spec["after"]):
+                    sched.yield_point("call.post")
+                    (ao.post_lifo if spec["lifo"] else ao.post_fifo)(Event(signal="E1", payload=100 + j))
+            sched.spawn(client, (), name="K0")
+            res["outcome"] = sched.run()
+            res["trace"] = sched.trace
+            res["finished"] = {t.name: t.finished for t in sched.threads}
+            res["live_fabric"] = [t.name for t in sched.threads if "active fabric" in t.name and not t.finished]
+            for t in sched.threads:
+                if t.error is not None:
+                    res["errors"].append("%s: %s: %s" % (t.name, type(t.error).__name__, t.error))
+            res["queue"] = [(e.signal_name, e.payload) for e in ao.locking_deque.deque.raw()]
+        finally:
+            leaked = sched.shutdown()
+            mao.pp = saved_pp
+            if leaked:
+                res["errors"].append("leaked: %s" % leaked)
+    return res
+
+
+def explore_fabric_stop(run, n):
+    """C13 'stop() halts every active object at its next wake-up' (oracle on the real threads; the theorems
+    C13_halts_active_objects_* are about the consumer model tied by the C04/C05 streams)"""
+    rng = run.rng
+    for _ in range(n):
+        spec = {"before": rng.randint(0, 2), "pauses": rng.choice([0, 1, 3, 6]), "after": rng.randint(1, 3), "lifo": int(rng.random() < 0.3)}
+        seed = rng.randrange(1 << 30)
+        r2 = random.Random(seed)
+        base = dsched.pct_chooser(r2, depth=r2.randint(1, 3), est_len=100) if r2.random() < 0.5 else dsched.random_chooser(r2)
+        res = run_fabric_stop(spec, base)
+        trace = res["trace"]
+        cj = {"what": "fabric-stop", "spec": spec, "seed": seed, "schedule": [e[0] for e in trace]}
+        run.count("active object woken after the fabric was stopped")
+        run.traces_validated += 1
+        if res["errors"]:
+            run.violate("C13/thread-error", "a thread died: %s" % res["errors"][:2], cj)
+        at = res.get("stop_at")
+        if at is None:
+            if res["outcome"] != "bound":
+                run.violate("C13/call-never-returns", "ActiveFabric().stop() did not return", cj)
+        else:
+            if res["live_fabric"]:
+                run.violate("C13/thread-survives-stop", "delivery threads alive after stop(): %s" % res["live_fabric"], cj)
+            woke = None
+            for i, e in enumerate(trace):
+                if e[0] == "C" and e[1] == "tok.get":
+                    woke = i
+                if e[0] == "C" and e[1] == "dq.popleft" and woke is not None and woke >= at:
+                    run.violate("C13/active-object-runs-after-fabric-stop", "the active object woke up after ActiveFabric().stop() had returned "
+                                "and still ran a run-to-completion step (dispatched so far: %s)" % res["log"][-3:], cj)
+                    break
+            if res["outcome"] == "quiescent" and not res["finished"].get("C"):
+                run.violate("C13/active-object-not-halted", "the fabric was stopped and the active object was woken %d time(s) afterwards, "
+                            "but its thread is still alive" % spec["after"], cj)
+        run.case(cj, nontrivial=True)
+
+
+def run_prestart(spec, chooser, max_steps=3000):
+    """a timed source armed before the object's thread exists: in the start state's ENTRY handler, or on the unstarted object"""
+    res = {"errors": [], "log": []}
+    saved_pp = mao.pp
+    mao.pp = lambda x: None
+    with dsched.Installed():
+        def stop_when(s):
+            k = [t for t in s.threads if t.name == "K0"]
+            return bool(k) and k[0].finished and s.now >= spec["horizon"]
+        sched = dsched.Sched(chooser, max_steps=max_steps, yield_filter=yield_filter)
+        dsched.Sched.current = sched
+        try:
+            ao = mao.ActiveObject(name="C")
+            sched.name_obj(ao.locking_deque.deque, "dq")
+            sched.name_obj(ao.locking_deque.locking_queue, "tok")
+            sched.name_obj(ao.activeobject_task_event, "run")
+
+            def arm(chart):
+                f = chart.post_lifo if spec["lifo"] else chart.post_fifo
+                f(Event(signal="T0", payload=7), period=spec["period"], times=spec["times"], deferred=bool(spec["deferred"]))
+
+            def client():
+                sched.yield_point("call.begin")
+                if spec["where"] == "entry":
+                    ao.start_at(_basic_chart(res["log"], on_entry=arm))
+                else:
+                    arm(ao)
+                    if spec["wait"]:
+                        mao.time.sleep(spec["wait"])
+                    ao.start_at(_basic_chart(res["log"]))
+                sched.name_obj(ao.fabric_task_event, "fab")
+            sched.spawn(client, (), name="K0")
+            res["outcome"] = sched.run(stop_when=stop_when)
+            res["trace"] = sched.trace
+            res["now"] = sched.now
+            for t in sched.threads:
+                if t.error is not None:
+                    res["errors"].append("%s: %s: %s" % (t.name, type(t.error).__name__, t.error))
+            res["posts"] = [int(e[4]) for e in sched.trace if e[0].startswith("timer") and e[1] in ("dq.append", "dq.appendleft")]
+            res["timer_finished"] = all(t.finished for t in sched.threads if t.name.startswith("timer"))
+        finally:
+            leaked = sched.shutdown()
+            mao.pp = saved_pp
+            if leaked:
+                res["errors"].append("leaked: %s" % leaked)
+    return res
+
+
+def explore_prestart(run, n):
+    """C10 for sources armed before the object's thread runs (oracle only: the Lean model arms sources from a client of a
+    started object)"""
+    rng = run.rng
+    for _ in range(n):
+        spec = {"where": rng.choice(["entry", "unstarted"]), "period": rng.randint(1, 3), "times": rng.choice([0, 1, 2, 3]),
+                "deferred": int(rng.random() < 0.5), "lifo": int(rng.random() < 0.3), "wait": rng.choice([0, 0, 1, 2, 4]), "horizon": 14}
+        seed = rng.randrange(1 << 30)
+        r2 = random.Random(seed)
+        base = dsched.random_chooser(r2, clock_bias=rng.choice([0.0, 0.1, 0.3]))
+        res = run_prestart(spec, base)
+        cj = {"what": "prestart", "spec": spec, "seed": seed, "schedule": [e[0] for e in res["trace"]]}
+        run.count("timed source armed %s" % ("in the start state's ENTRY handler" if spec["where"] == "entry" else "on the unstarted object"))
+        run.traces_validated += 1
+        if res["errors"]:
+            run.violate("C10/thread-error", "a thread died: %s" % res["errors"][:2], cj)
+        got, n_t, p = res["posts"], spec["times"], spec["period"]
+        if n_t and len(got) > n_t:
+            run.violate("C10/too-many-posts", "a source armed before the thread started (times=%d) posted %d times" % (n_t, len(got)), cj)
+        if res["outcome"] in ("stopped", "quiescent"):
+            due = 1 + (int(res["now"]) - 1 - (p if spec["deferred"] else 0) - spec["wait"] * 0) // p if int(res["now"]) - 1 >= (p if spec["deferred"] else 0) else 0
+            must = min(n_t, due) if n_t else min(due, 1)
+            # only what is certainly due strictly before the last instant reached, with a wide margin for late timer threads
+            if n_t and (res["outcome"] == "quiescent" or res["timer_finished"]) and len(got) != n_t:
+                run.violate("C10/wrong-count", "a source armed %s (period %d, times %d, deferred %s) ended after %d posts"
+                            % (spec["where"], p, n_t, bool(spec["deferred"]), len(got)), cj)
+            elif res["outcome"] == "quiescent" and not n_t:
+                run.violate("C10/wrong-count", "an endless source armed %s stopped by itself after %d posts" % (spec["where"], len(got)), cj)
+        run.case(cj, nontrivial=True)
 
 
 def replay(case):
     cc = case.get("case", case)
+    if cc.get("what") == "fabric-stop":
+        res = run_fabric_stop(cc["spec"], dsched.scripted_chooser(cc["schedule"], then=dsched.round_robin_chooser()))
+        print({k: v for k, v in res.items() if k != "trace"})
+        return 0
+    if cc.get("what") == "prestart":
+        res = run_prestart(cc["spec"], dsched.scripted_chooser(cc["schedule"], then=dsched.round_robin_chooser()))
+        print({k: v for k, v in res.items() if k != "trace"})
+        return 0
     if cc.get("what") == "handler-armed":
         res = run_handler_armed(cc["spec"], dsched.scripted_chooser(cc["schedule"], then=dsched.round_robin_chooser()))
         print({k: v for k, v in res.items() if k != "trace"})
